@@ -333,7 +333,9 @@ class CSSImportRule(cssrule.CSSRule):
                     cssText, encodingOverride=encodingOverride, encoding=encoding
                 )
 
-            except (OSError, ValueError) as e:
+            except (OSError, ValueError, xml.dom.DOMException) as e:
+                # (also what a raising log makes of an error inside the
+                # imported sheet: it is not an error of this rule)
                 self._log.warn(
                     'CSSImportRule: While processing imported '
                     'style sheet href=%s: %r' % (self.href, e),
